@@ -381,6 +381,9 @@ OBLIGATIONS += [
     _s("E8", "finalise_guard", "run", ["C05"], "finalise_block takes no write lock (database writes, block-info reset) unless validate_next_tx(count, hash, number, timestamp) of this very call returned Ok before; a failing validate_next_tx / write_fn ends the call with that error and nothing runs after it",
        "every path of the function itself (loop-free); the outcome of every Result-returning call and every Boolean a branch depends on is free; the write closure and callee bodies are not entered (validate_next_tx's predicate is E3)",
        ["engine::engine::BRC20ProgEngine::finalise_block"]),
+    _s("E9", "finalise_guard", "run_add_tx", ["C05"], "add_tx_to_block takes no write lock (block-info update, EVM execution inside the database write) unless validate_next_tx(tx_idx, hash, number, timestamp) of this very call returned Ok before; a failing validate_next_tx / nonce lookup ends the call with that error",
+       "as E8: every path of the function itself (loop-free), outcomes of Result-returning calls and uninterpreted comparisons free; the write closure (revm execution) and callee bodies are not entered",
+       ["engine::engine::BRC20ProgEngine::add_tx_to_block"]),
     _s("D6", "guards", "run_reorg_guard", ["C01", "C05"], "database reorg(n): refused with a new error, before any table call or field write, iff the recorded maximum is more than 10 above n; otherwise the first table roll-back is reached; every table roll-back gets n; a failing read of the recorded maximum is passed on; no path returns Ok without rolling back",
        "all 64-bit n (n <= 2^64-11 for the clauses that add the window), every value of the recorded maximum incl. absent; every MIR path of the function (loop-free), callee bodies not entered, uninterpreted results unconstrained",
        ["db::brc20_prog_database::Brc20ProgDatabase::reorg", "global::config::MAX_REORG_HISTORY_SIZE"]),
